@@ -189,8 +189,50 @@ def f_arrayGet(args):
     return a[int(i)]
 
 
+def pred_value(x):
+    """The simulated match function hostPred(value): a pure function of the element, answering with values of
+    every truthiness class (the documentation says 'f(value) -> bool'; the language's truthiness applies)."""
+    if is_num(x):
+        return [None, 0.0, {}, 1.0, '', 'x', [], [0.0], True, False, {'k': 1.0}][int(abs(x)) % 11]
+    if isinstance(x, str):
+        return {} if len(x) % 2 else ''
+    if x is None:
+        return {}
+    if isinstance(x, bool):
+        return x
+    if isinstance(x, list):
+        return []
+    return {}
+
+
+def truthy(v):
+    if v is None:
+        return False
+    if isinstance(v, bool):
+        return v
+    if is_num(v):
+        return v != 0
+    if isinstance(v, str):
+        return v != ''
+    if isinstance(v, list):
+        return len(v) != 0
+    return True
+
+
 def _index_of(args, last):
     a, v, i = check(args, [(A, 'req'), (None, 'req'), (N, 'optnull' if last else ('opt', 0))], -1)
+    if isinstance(v, Opaque) and v.kind == 'pred':
+        if i is None:
+            i = len(a) - 1
+            if i < 0:
+                return -1
+        if not is_ix(i) or i >= len(a):
+            raise Fail(-1)
+        rng = range(int(i), -1, -1) if last else range(int(i), len(a))
+        for k in rng:
+            if truthy(pred_value(a[k])):
+                return k
+        return -1
     if isinstance(v, Opaque):
         raise Unspecified('match function / opaque search value')
     if i is None:
